@@ -1,5 +1,6 @@
 import SigModel.Model.Gorilla
 import SigModel.Spec.Metrics
+import SigModel.Model.TagsTree
 import Oracle.Util
 /- line protocol, suite "gorilla":
    gor <header> <cloneAt> <t>:<vhex16> ...   →  bytes=<hex> dec=<t:v,...>/<st> clone=<t:v,...>/<st>
@@ -89,8 +90,62 @@ def tsid (args : List String) : String :=
     | _, _ => "bad-op"
   | _ => "bad-op"
 
+/-! suite "tagstree":  tt <metric 0|1>:<type s|n>:<hexvalue>:<count>:<order d|a|r> …   (harness/cmd/corr/c08_tagstree.go)
+    → per entry  <j>:eq=<n>/<sum>:ne=<n>/<sum>:it=<n>/<sum>  computed by the block-level model (SigModel.TagsTree):
+    the entries of a metric are encoded into blocks of at most 65535 TSIDs, then read back by readEqual / readNotEqual / iterFor -/
+
+structure TTEntry where
+  metric : Nat
+  count : Nat
+deriving Inhabited
+
+def ttDigits (s : String) : Bool := !s.isEmpty && s.toList.all Char.isDigit
+
+def ttParseEntry (t : String) : Option (TTEntry × String) :=
+  match t.splitOn ":" with
+  | [m, ty, v, n, ord] =>
+    if (m != "0" && m != "1") || (ty != "s" && ty != "n") || !ttDigits n || n.length > 6 || (ord != "d" && ord != "a" && ord != "r") then none else
+    match hexBytes? v, n.toNat? with
+    | some vb, some cnt =>
+      let lower := v.toList.all (fun c => c.isDigit || ('a' ≤ c && c ≤ 'f'))
+      let intOk := match vb.map Char.ofNat with
+        | ['0'] => true
+        | c :: r => c.isDigit && c != '0' && r.all Char.isDigit && r.length ≤ 14
+        | [] => false
+      if !lower || cnt > 200000 || (ord != "d" && cnt > 3000) then none
+      else if ty == "n" && !intOk then none
+      else if ty == "s" && (vb.length > 65535 || vb.contains 92) then none
+      else some ({ metric := if m == "0" then 0 else 1, count := cnt }, m ++ ":" ++ ty ++ ":" ++ v)
+    | _, _ => none
+  | _ => none
+
+def ttHasDup : List String → Bool
+  | [] => false
+  | x :: r => r.contains x || ttHasDup r
+
+def ttSum (l : List Nat) : Nat := l.foldl (fun a b => (a + b) % 18446744073709551616) 0
+
+def ttShow (l : List Nat) : String := s!"{l.length}/{natHexW (ttSum l) 16}"
+
+def tt (args : List String) : String :=
+  if args.isEmpty || args.length > 40 then "bad-op" else
+  match args.mapM ttParseEntry with
+  | none => "bad-op"
+  | some es =>
+    if ttHasDup (es.map (·.2)) || (es.map (·.1.count)).foldl (· + ·) 0 > 400000 then "bad-op" else
+    let ents : List (Nat × Nat × TagsTree.Entry) := (List.range es.length).map (fun j =>
+      let e := (es.getD j default).1
+      (j, e.metric, { hash := j + 1, tsids := (List.range e.count).map (fun i => (j + 1) * 4294967296 + i) }))
+    let blocksOfMetric (m : Nat) : List TagsTree.Block := TagsTree.encodeBlocks ((ents.filter (fun x => x.2.1 == m)).map (·.2.2))
+    let b0 := blocksOfMetric 0
+    let b1 := blocksOfMetric 1
+    " ".intercalate (ents.map (fun (j, m, e) =>
+      let bs := if m == 0 then b0 else b1
+      s!"{j}:eq={ttShow (TagsTree.readEqual e.hash false bs)}:ne={ttShow (TagsTree.readNotEqual e.hash bs)}:it={ttShow (TagsTree.iterFor e.hash bs)}"))
+
 def handle (cmd : String) (args : List String) : Option String :=
   match cmd with
+  | "tt" => some (tt args)
   | "gor" => some (gor args)
   | "gdec" => some (gdec args)
   | "tsid" => some (tsid args)
